@@ -176,10 +176,12 @@ def main(ck, tier, w, pid='C01'):
             for s_, e_ in ((None, None), (2, 3)) if coin == 'bitcoin' else ((1, None),):
                 r = run.run_parser(xd, 'csvdump', dump=w.mk('out'), coin=coin, start=s_, end=e_, timeout=600)
                 lo, hi = s_ or 0, 3 if e_ is None else e_
-                exp, _ = ref.csv_expected(list(enumerate(xb))[lo:hi + 1], coin)
+                exp, tot = ref.csv_expected(list(enumerate(xb))[lo:hi + 1], coin)
                 ck.evals()
                 ck.distinct(('wide', coin, s_, e_))
                 bad = [f for f in exp if r.files.get('%s-%d-%d.csv' % (f, lo, hi)) != exp[f]]
+                if not bad and r.rc == 0 and summary_totals(r.stdout) != tuple(tot):
+                    bad = ['printed totals %s, rows written %s' % (summary_totals(r.stdout), tuple(tot))]
                 if r.rc != 0 or bad:
                     ck.violation('%s csvdump of the wide chain (66 000 transactions in a block, 65 600 inputs/outputs/witness items), range %s..%s: exit %d, '
                                  'files differing from the reference: %s' % (coin, lo, hi, r.rc, bad),
